@@ -331,7 +331,8 @@ func (s *StructType) CanFilter() bool {
 func (s *StructType) IsValidJson(data json.RawMessage,
 	alarms *strings.Builder,
 	lookup *TypeLookup) error {
-	if isNullBytes(data) {
+	// Like the other types, accept null with white space around it.
+	if isNullBytes(bytes.TrimSpace(data)) {
 		return nil
 	}
 	var m map[string]json.RawMessage
@@ -358,7 +359,7 @@ func (s *StructType) IsValidJson(data json.RawMessage,
 	return errs.If()
 }
 func (s *StructType) FilterJson(data json.RawMessage, lookup *TypeLookup) (json.RawMessage, bool, error) {
-	if isNullBytes(data) {
+	if isNullBytes(bytes.TrimSpace(data)) {
 		return data, false, nil
 	}
 	var arr map[string]json.RawMessage
